@@ -148,7 +148,11 @@ def unwrap(spelling, target):
 def repeated(col, family, key, make_spec, tbuild, ref, init_counters, lazy=False, desc=''):
     """evaluate one spec object four times; compare each with the reference; check input purity,
     result disjointness and init call counts"""
-    spec = make_spec()
+    built = call(make_spec)
+    if not built.ok:
+        col.violation('C15/%s-spec-cannot-be-built' % family, 'building the spec for %s raised %r' % (desc, built.exc), {'desc': desc})
+        return
+    spec = built.value
     rendering = short(spec)
     results = []
     wit = {'spec': rendering, 'desc': desc}
